@@ -306,7 +306,7 @@ def run_pt(sc, sched, canonical=False, want_trace=False):
             pt_gen_names = [g.name for g in find_generators(pt).values()]
             prev = None
             if sc["snap"]:
-                prev = [Snap(ch) for ch in L('return_chains', pt.return_chains)]
+                prev = L('read-out of returned chains', lambda: [Snap(ch) for ch in L('return_chains', pt.return_chains)])
                 _check_snap(V, prev, tgts, temps, stats, "initial")
             expected = [1] * N
             for op in sc["ops"]:
@@ -322,7 +322,7 @@ def run_pt(sc, sched, canonical=False, want_trace=False):
                     expected = None if expected is None else [e + op[1] for e in expected]
                 elif name == "swap":
                     if not sc["snap"]:
-                        prev = [Snap(ch) for ch in L('return_chains', pt.return_chains)]
+                        prev = L('read-out of returned chains', lambda: [Snap(ch) for ch in L('return_chains', pt.return_chains)])
                         seq0 = c.seq
                     L('swap', pt.swap)
                 elif name == "advance":
@@ -339,7 +339,7 @@ def run_pt(sc, sched, canonical=False, want_trace=False):
                 uniforms = _pt_uniforms(c, pt_gen_names, seq0)
                 A1, S1 = pt.attempted_swaps.copy(), pt.successful_swaps.copy()
                 if sc["snap"] or name == "swap":
-                    cur = [Snap(ch) for ch in L('return_chains', pt.return_chains)]
+                    cur = L('read-out of returned chains', lambda: [Snap(ch) for ch in L('return_chains', pt.return_chains)])
                     _check_snap(V, cur, tgts, temps, stats, "after " + name, prev)
                     if name == "swap":
                         check_swap(V, prev, cur, A0, A1, S0, S1, uniforms, temps, tgts, stats)
@@ -359,7 +359,7 @@ def run_pt(sc, sched, canonical=False, want_trace=False):
                 final = L('return_chains', pt.return_chains)
                 if len(final) != N:
                     _viol(V, "return.complete", "return_chains() gave %d chains for %d workers" % (len(final), N))
-                fs = [Snap(ch) for ch in final]
+                fs = L('read-out of returned chains', lambda: [Snap(ch) for ch in final])
                 _check_snap(V, fs, tgts, temps, stats, "final")
                 if expected is not None:
                     ln = [s.length for s in fs]
@@ -373,7 +373,9 @@ def run_pt(sc, sched, canonical=False, want_trace=False):
             if not V and sc.get("shutdown", True):
                 t0 = sim.now
                 st0 = sim.stats["stalls"]
+                sim.watchdog = sim.now + 600.0
                 L('shutdown', pt.shutdown)
+                sim.watchdog = None
                 live = sim.live_workers()
                 if live:
                     _viol(V, "shutdown.terminate", "workers still alive after shutdown(): %r" % live)
@@ -389,6 +391,9 @@ def run_pt(sc, sched, canonical=False, want_trace=False):
             _viol(V, "liveness.deadlock", str(e))
     except kernel.StepCap as e:
         _viol(V, "liveness.stepcap", str(e))
+    except kernel.Overdue as e:
+        _viol(V, "shutdown.bounded", "shutdown() had not returned after 600 simulated seconds (%s); live workers %r"
+              % (e, sim.live_workers()))
     except seams.UnseamedNondeterminism:
         raise
     except oracles.LibRaised as e:  # an exception escaping the library's public PT API
